@@ -1,10 +1,11 @@
 """Translate the JSONField family of fim.slivers.capacities_labels (and the tables the other small
 codecs depend on) into lean/FimVerif/Generated/Fields.lean.
 
-Per JSONField subclass (found through JSONField.__subclasses__() of the running module):
+Per JSONField subclass - every descendant of JSONField in the running module, cross-checked against the class
+statements found in the source of every module under /repo/fim (a subclass declared elsewhere is refused):
   fields/defaults : instantiate with no arguments, read __dict__ (defaults must be None / 0 / False)
   guard           : the assert statements at the head of the `for k, v in kwargs.items()` loop of _set_fields
-  unknown-key     : try: self.__getattribute__(k); [validators]; self.__setattr__(k, v)
+  unknown-key     : try: self.__getattribute__(k) | if k not in self.__dict__: raise AttributeError(k); [validators]; self.__setattr__(k, v)
                     except AttributeError: if forgiving: <log> else: raise <Exc>(report)
   drop rules      : to_json / to_dict resolved through the MRO; recognised bodies
                       d = self.__dict__.copy(); for k in self.__dict__: if <COND>: d.pop(k);
@@ -55,6 +56,7 @@ def _guard(cls_name, fn):
         ("if v is not None:\n    assert v >= 0\n    assert isinstance(v, int)",): "natOrNone",
         ("assert v is not None", "assert isinstance(v, str)"): "str",
         ("assert v is not None", "assert isinstance(v, str) or isinstance(v, list)"): "strOrList",
+        ("assert v is not None", "assert isinstance(v, str) or (isinstance(v, list) and all((isinstance(i, str) for i in v)))"): "strOrStrList",
         ("assert v is not None", "assert isinstance(v, str) or isinstance(v, float)"): "strOrFloat",
         ("assert v is not None", "assert isinstance(v, bool)"): "bool",
     }
@@ -63,8 +65,11 @@ def _guard(cls_name, fn):
         raise ExtractionError("%s._set_fields: unrecognised guard %r" % (cls_name, hs))
     # try body
     tb = [s for s in tr.body if not (isinstance(s, ast.Expr) and isinstance(s.value, ast.Constant))]
-    if len(tb) < 2 or _src(tb[0]) != "self.__getattribute__(k)" or _src(tb[-1]) != "self.__setattr__(k, v)":
-        raise ExtractionError("%s._set_fields: try body is not getattribute ... setattr" % cls_name)
+    # the test that k is a field: any attribute (methods and class attributes pass it), or membership in the instance dict
+    tests = {"self.__getattribute__(k)": False, "if k not in self.__dict__:\n    raise AttributeError(k)": True}
+    if len(tb) < 2 or _src(tb[0]) not in tests or _src(tb[-1]) != "self.__setattr__(k, v)":
+        raise ExtractionError("%s._set_fields: try body is not <field test> ... setattr" % cls_name)
+    strict = tests[_src(tb[0])]
     validators = []
     for s in tb[1:-1]:
         if isinstance(s, ast.If) and _src(s.test) in ("self.VALIDATORS.get(k, None) is not None",
@@ -82,7 +87,7 @@ def _guard(cls_name, fn):
             or not isinstance(iff.orelse[0], ast.Raise) or not isinstance(iff.orelse[0].exc, ast.Call):
         raise ExtractionError("%s._set_fields: forgiving branch" % cls_name)
     exc = _src(iff.orelse[0].exc.func)
-    return g, validators, exc
+    return g, validators, exc, strict
 
 
 COND = {
@@ -132,7 +137,10 @@ FROM_JSON = [
     "ret._set_fields(forgiving=True, **{k: v for k, v in d.items() if k in ret.__dict__})", "return ret"]
 UPDATE = [
     "assert isinstance(lab, JSONField)", "inst = lab.__class__()",
-    "for k, v in lab.__dict__.items():\n    inst.__setattr__(k, v)", "inst._set_fields(**kwargs)", "return inst"]
+    "for k, v in lab.__dict__.items():\n    inst.__setattr__(k, %s)", "inst._set_fields(**kwargs)", "return inst"]
+# the value expression of the attribute-copy loop of update(): by reference, or with list values copied
+UPDATE_VALUE = {"v": False, "v.copy() if isinstance(v, list) else v": True, "list(v) if isinstance(v, list) else v": True,
+                "v[:] if isinstance(v, list) else v": True, "copy.copy(v) if isinstance(v, list) else v": True}
 
 
 def _jval(v):
@@ -197,6 +205,45 @@ def _no_class_level_state(tree, class_names):
             raise ExtractionError("class-level table %s is modified at run time (line %d)" % (ast.unparse(tgt), node.lineno))
 
 
+def _family_in_source():
+    """{class name: (file, [base names])} of every class under /repo/fim whose bases reach JSONField, found in the
+    *source* (AST of every module), so that a subclass added anywhere - also in a module nothing imports yet, or as a
+    subclass of a subclass - is seen."""
+    classes = {}
+    root = os.path.join(REPO, "fim")
+    for dp, dn, fn in os.walk(root):
+        for f in sorted(fn):
+            if not f.endswith(".py"):
+                continue
+            rel = os.path.relpath(os.path.join(dp, f), REPO)
+            try:
+                t = ast.parse(read_src(rel))
+            except SyntaxError:
+                continue
+            for n in ast.walk(t):
+                if isinstance(n, ast.ClassDef):
+                    bases = [b.id if isinstance(b, ast.Name) else b.attr if isinstance(b, ast.Attribute) else "" for b in n.bases]
+                    classes.setdefault(n.name, []).append((rel, bases))
+    family, member, grew = {"JSONField"}, {}, True
+    while grew:                      # a class statement joins when one of its bases is (by name) a member
+        grew = False
+        for name, defs in classes.items():
+            for rel, bases in defs:
+                if name != "JSONField" and set(bases) & family and (rel, bases) not in member.get(name, []):
+                    member.setdefault(name, []).append((rel, bases))
+                    family.add(name)
+                    grew = True
+    return member
+
+
+def _descendants(k):
+    out = []
+    for c in k.__subclasses__():
+        out.append(c)
+        out.extend(_descendants(c))
+    return out
+
+
 def generate():
     tree, src = parse(REL)
     import fim.slivers.capacities_labels as cl
@@ -207,11 +254,21 @@ def generate():
     if fj != FROM_JSON:
         raise ExtractionError("JSONField.from_json changed shape: %r" % fj)
     up = [_src(s) for s in strip_doc(find_func(base, "update").body)]
-    if up != UPDATE:
+    copies = [c for e, c in UPDATE_VALUE.items() if up == [u % e if "%s" in u else u for u in UPDATE]]
+    if len(copies) != 1:
         raise ExtractionError("JSONField.update changed shape: %r" % up)
-    subs = cl.JSONField.__subclasses__()
+    update_copies_lists = copies[0]
+    subs = _descendants(cl.JSONField)
     if not subs:
         raise ExtractionError("no JSONField subclasses")
+    # the classes of the running module are exactly the ones the source declares: nothing outside this file, nothing missed
+    declared = _family_in_source()
+    for n, defs in sorted(declared.items()):
+        if len(defs) != 1 or defs[0][0] != REL:
+            raise ExtractionError("JSONField subclass %s is declared in %s: outside the module this translator covers" % (n, [d[0] for d in defs]))
+    if set(declared) != set(c.__name__ for c in subs if c.__module__ == cl.__name__):
+        raise ExtractionError("JSONField subclasses in the source %s differ from those of the running module %s" %
+                              (sorted(declared), sorted(c.__name__ for c in subs)))
     _no_class_level_state(tree, ["JSONField"] + [c.__name__ for c in subs if c.__module__ == cl.__name__])
     report = {"classes": {}}
     body = ""
@@ -225,7 +282,7 @@ def generate():
                 raise ExtractionError("%s overrides %s" % (n, meth))
         inst = c()
         fields = list(inst.__dict__.items())
-        g, validators, exc = _guard(n, find_func(find_class(tree, n), "_set_fields"))
+        g, validators, exc, strict = _guard(n, _resolve(tree, c, "_set_fields")[1])
         jrule = _drop_rule(n, _resolve(tree, c, "to_json")[1], "json")
         drule = _drop_rule(n, _resolve(tree, c, "to_dict")[1], "dict")
         attrs = sorted(a for a in dir(inst) if a not in inst.__dict__)
@@ -244,14 +301,18 @@ def generate():
         body += "  fields := %s\n" % lean_list(["⟨%s, %s⟩" % (lean_str(k), _jval(v)) for k, v in fields])
         body += "  guard := .%s\n  drop := .%s\n  dictDrop := .%s\n" % (g, jrule, drule)
         body += "  attrs := %s\n" % lean_list([lean_str(a) for a in attrs])
-        body += "  unknownErr := %s\n\n" % lean_str(kind)
+        body += "  unknownErr := %s\n" % lean_str(kind)
+        body += "  strictFields := %s\n\n" % ("true" if strict else "false")
         if validators:
             body += "/-- fields of %s that have a VALIDATORS / LAMBDA_VALIDATORS entry -/\n" % n
             body += "def %sValidated : List String := %s\n\n" % (lname, lean_list([lean_str(k) for k in vkeys]))
         specs.append(lname)
         report["classes"][n] = {"fields": [k for k, _ in fields], "guard": g, "to_json": jrule, "to_dict": drule,
-                                "unknown": kind, "validators": validators}
+                                "unknown": kind, "validators": validators, "strict_fields": strict}
     body += "def all : List ClassSpec := %s\n\n" % lean_list(specs)
+    body += "/-- `JSONField.update` copies list values into the new instance (it does not share them with the original) -/\n"
+    body += "def updateCopiesLists : Bool := %s\n\n" % ("true" if update_copies_lists else "false")
+    report["update_copies_lists"] = update_copies_lists
 
     from fim.graph.abc_property_graph_constants import ABCPropertyGraphConstants as K
     body += "def neo4jNone : String := %s\n\n" % lean_str(K.NEO4j_NONE)
